@@ -357,6 +357,43 @@ Definition consistentb (g : graph) (h : nat -> option Z) : bool :=
           (seq 0 (g_n g)).
 
 (* ------------------------------------------------------------------------- *)
+(* Potential certificate: the same clauses as cert_clauses, but minimality is *)
+(* witnessed by a potential phi supplied with the result (phi u <= c + phi v  *)
+(* along every transition, phi = 0 on goals, value = phi start) instead of    *)
+(* by running bf_dist.  Linear in the size of the graph: used for problems    *)
+(* with thousands of states.  It cannot certify "no plan".                    *)
+(* ------------------------------------------------------------------------- *)
+Definition pot_clauses (g : graph) (start : nat) (phi : nat -> Z) (r : plan)
+  : bool * bool * bool * bool * bool :=
+  match r with
+  | None => (true, true, true, true, false)
+  | Some (path, acts, v) =>
+      match path with
+      | [] => (false, false, false, false, false)
+      | s0 :: rest =>
+          let c_start := (s0 =? start)%nat in
+          match path_edges g s0 rest acts with
+          | None => (c_start, false, false, false, false)
+          | Some p => (c_start, true, g_goal g (last path s0), cost p =? v,
+                       consistentb g (fun s => Some (phi s)) && (phi start =? v))
+          end
+      end
+  end.
+Definition pot_cert (g : graph) (start : nat) (phi : nat -> Z) (r : plan) : bool :=
+  all5 (pot_clauses g start phi r).
+Definition bfs_pot_clauses (g : graph) (start : nat) (phi : nat -> Z) (r : bfs_plan) :=
+  pot_clauses (unit_graph g) start phi (plan_of_bfs r).
+Definition bfs_pot_cert (g : graph) (start : nat) (phi : nat -> Z) (r : bfs_plan) : bool :=
+  pot_cert (unit_graph g) start phi (plan_of_bfs r).
+
+(* literals for big problems: numbers written in binary *)
+Definition mkEz (a t c : Z) : edge := (Z.to_nat a, Z.to_nat t, c).
+Definition zplan (r : option (list Z * list Z * Z)) : plan :=
+  match r with None => None | Some (p, a, v) => Some (map Z.to_nat p, map Z.to_nat a, v) end.
+Definition zbfs_plan (r : option (list Z * list Z)) : bfs_plan :=
+  match r with None => None | Some (p, a) => Some (map Z.to_nat p, map Z.to_nat a) end.
+
+(* ------------------------------------------------------------------------- *)
 (* DeterministicShortestPathProblem.from_mdp: how the single outcome of an   *)
 (* initial / next-state distribution is read:  sup = dist.support;           *)
 (* assert len(sup) == 1; return next(iter(sup)).                             *)
